@@ -85,6 +85,17 @@ def _bumplist(field, idx):
     return fn
 
 
+def _flipoutcome(e):
+    if e.get('outcome') == 'accepted':
+        e['outcome'] = 'rejected'
+        e['code'] = 'X'
+        return e
+    if e.get('outcome') == 'rejected':
+        e['outcome'] = 'accepted'
+        return e
+    return None
+
+
 PROPS = {
     'C11': dict(
         tv=dict(module='ScannerTrace', cfg='ScannerTrace.cfg'),
@@ -134,6 +145,12 @@ PROPS = {
         tv=dict(module='TokenIteratorTrace', cfg='TokenIteratorTrace.cfg'),
         mc=[dict(module='TokenIteratorMC', cfg='TokenIteratorMC.cfg')],
         corrupt=[('flip has-next answer', _flip('ret')), ('token type + 1', _bumplist('tok', 0))],
+        exhaustive_part=True,
+    ),
+    'C02': dict(
+        tv=dict(module='ExprParseTrace', cfg='ExprParseTrace.cfg'),
+        mc=[],
+        corrupt=[('flip accepted/rejected', _flipoutcome)],
         exhaustive_part=True,
     ),
 }
